@@ -53,7 +53,7 @@ func newClientCxn(l lane.Lane, cxn net.Conn, dispatcher *cmdDispatcher, onClosed
 		csceCh:      make(chan *clientStateEvent, 3),
 	}
 
-	cc.cs = newClientState(l, cc, dispatcher)
+	newClientState(l, cc, dispatcher) // sets cc.cs before the state becomes visible to other connections
 	simNewObject(cc)
 	simClientBorn(cc.cs.id, cxn.RemoteAddr().String())
 
